@@ -133,6 +133,9 @@ namespace vw
                 double jx = (r.unit() - 0.5) * 0.6, jy = (r.unit() - 0.5) * 0.6;
                 m.points.push_back({ (static_cast<double>(i) + jx) * 1.5, (static_cast<double>(j) + jy) * 0.8 });
             }
+        // points that no triangle references (isolated nodes), appended after the lattice
+        for (int e = 0; e < g.mesh_extra; ++e)
+            m.points.push_back({ 1.5 * static_cast<double>(nx) + 2.0 + static_cast<double>(e), 0.8 * static_cast<double>(ny) + 1.0 });
         // holes: isolated interior cells (never two adjacent ones, never touching the outer ring)
         std::set<std::size_t> holes;
         for (int h = 0; h < g.mesh_holes && nx >= 4 && ny >= 4; ++h)
